@@ -152,3 +152,10 @@ mod tests {
         assert_eq!(speech.len(), 0);
     }
 }
+
+/// Prints a diagnostic line to the standard error stream. Unlike `eprintln!` it does not panic when that stream
+/// cannot be written (closed pipe, full device): a warning must never turn a successful call into a failure.
+pub(crate) fn warn(message: std::fmt::Arguments) {
+    use std::io::Write;
+    let _ = writeln!(std::io::stderr(), "{message}");
+}
